@@ -45,8 +45,28 @@ def check(case):
             os.makedirs(os.path.dirname(rerun_path), exist_ok=True)
             with open(rerun_path, "w") as f:
                 f.write("# -- RERUN: stale\nfeatures/f0.feature:1\n")
-        argv = disk.cli_args(prog.get("cfg") or {}) + ["-f", "rerun", "-o", rerun_rel, "features"]
-        run1 = disk.run_inproc(proj, argv, prog)
+        fmt_name = "rerun"
+        if case.get("fmt_class"):
+            # a user-defined formatter derived from RerunFormatter with its class-level switches on (descriptions of the
+            # failed scenarios as comment lines, a timestamp): the entries are the same
+            import sys
+            mod_name = "vf_rerun_fmt%d" % int(case["fmt_class"])
+            with open(os.path.join(proj.root, mod_name + ".py"), "w") as f:
+                f.write("from behave.formatter.rerun import RerunFormatter\n\n\n"
+                        "class RerunWithDescriptions(RerunFormatter):\n"
+                        "    show_failed_scenarios_descriptions = True\n"
+                        "    show_timestamp = %s\n" % bool(int(case["fmt_class"]) > 1))
+            fmt_name = mod_name + ":RerunWithDescriptions"
+            sys.modules.pop(mod_name, None)
+            sys.path.insert(0, proj.root)
+            res.label("user-defined-rerun-formatter-class")
+        argv = disk.cli_args(prog.get("cfg") or {}) + ["-f", fmt_name, "-o", rerun_rel, "features"]
+        try:
+            run1 = disk.run_inproc(proj, argv, prog)
+        finally:
+            if case.get("fmt_class"):
+                sys.path.remove(proj.root)
+                sys.modules.pop(mod_name, None)
         if run1.escaped is not None:
             res.fail("C17.run1.escape", "run 1 raised %r" % (run1.escaped,))
             return res
@@ -172,7 +192,8 @@ def case_st(draw):
         # has a problem although all of its steps may have passed
         prog["cleanups"] = [{"at": draw(st.integers(0, 10000)), "raises": True}]
     case = {"program": prog, "stale": draw(st.integers(0, 3)) == 0,
-            "rerun_file": draw(st.sampled_from(["rerun.txt", "rerun.txt", "reports/rerun.txt", "features/rerun.features"]))}
+            "rerun_file": draw(st.sampled_from(["rerun.txt", "rerun.txt", "reports/rerun.txt", "features/rerun.features"])),
+            "fmt_class": draw(st.sampled_from([0, 0, 0, 0, 1, 2]))}
     if draw(st.booleans()):
         # sub-directories: plain, with a blank and a '#' in the name, reached through a symbolic link
         case["subdirs"] = {"1": draw(st.sampled_from(["sub", "sub", "ticket #12", "with blank", "@link:common"]))}
@@ -199,7 +220,7 @@ def explore(rec):
 
 
 def required_labels(tier):
-    return ["no-failures", "failures", "kind:failed", "kind:error", "rerun-file:subdir", "stale-removed",
+    return ["user-defined-rerun-formatter-class", "no-failures", "failures", "kind:failed", "kind:error", "rerun-file:subdir", "stale-removed",
             "stale-overwritten", "row-listed", "hook-fault", "listed-name-not-unique", "inherited-@setup/@teardown", "feature.skip()-after-a-failure",
             "feature-dir:symlink", "feature-dir:special-characters", "raising-cleanup:scenario-scope"]
 
